@@ -37,7 +37,7 @@ def obligations(tier):
                  desc='inside a segment, id -> time is within one tick and time -> id within one sample of the exact linear value (integer oracle), '
                       'for anchors of any magnitude up to 2^62 (where a double no longer holds the anchor exactly)',
                  bound='2 pairs, id/time deltas < 2^VBITS per rung label, |id0|,|t0| < 2^62'))
-    if tier != 'quick' or os.environ.get('C12_EXTRAP'):
+    if os.environ.get('C12_EXTRAP'):      # parked: no verdict within 15 min at VBITS=6 (DESIGN.md C12 'not decided'); not part of any registered tier
         o.append(Obl('O2_tmap_tick_accuracy_extrapolated', 'c12_tmap.c', units=['tmap.c'], defines=base + ['WITH_TICK=1', 'TICK_EXTRAP=1', 'NMAX=2', 'VBITS=6'], unwind=6, timeout=1500, backend=PORTFOLIO,
                      desc='as O2_tmap_tick_accuracy, with the sample id up to 2^6 before the first / after the last of the two pairs: extrapolation from the nearest (only) segment is within one tick of the exact linear value',
                      bound='2 pairs, id/time deltas < 2^6, extrapolation distance <= 2^6, |id0|,|t0| < 2^62'))
